@@ -36,10 +36,10 @@ import (
 // event log
 
 type c11Event struct {
-	K    string `json:"k"`              // dial | enq | write | srv | pclose | obs | reply | fail
+	K    string `json:"k"`              // dial | enq | write | srv | pclose | cclose | cflag | obs | reply | fail
 	G    int    `json:"g"`              // connection generation (order of accept at the server); -1 = none
 	ID   int    `json:"id"`             // harness call number; -1 = none
-	Dead bool   `json:"dead,omitempty"` // write: the client had already closed this connection when the sender was about to write
+	Dead bool   `json:"dead,omitempty"` // write: the client had already closed this connection when the sender was about to write; cflag: the closed flag of the adapter's current client
 	Cur  bool   `json:"cur,omitempty"`  // write: the connection was the client's current one
 	Ms   int    `json:"ms,omitempty"`   // reply/fail: latency of the call in ms (not compared by the model)
 }
@@ -171,6 +171,9 @@ type c11Server struct {
 	conns   map[net.Conn]bool
 	stopped bool
 	wg      sync.WaitGroup
+
+	srvClosed map[net.Conn]bool // connections the server itself has closed from outside their serve goroutine
+	version   int16             // protocol version of the last request (for the close notification)
 }
 
 func c11Listen(port int) (net.Listener, error) {
@@ -191,7 +194,7 @@ func c11StartServer(mode string, k int, log *c11Log) (*c11Server, error) {
 	if err != nil {
 		return nil, err
 	}
-	s := &c11Server{ln: ln, port: ln.Addr().(*net.TCPAddr).Port, mode: mode, k: k, log: log, conns: map[net.Conn]bool{}}
+	s := &c11Server{ln: ln, port: ln.Addr().(*net.TCPAddr).Port, mode: mode, k: k, log: log, conns: map[net.Conn]bool{}, srvClosed: map[net.Conn]bool{}, version: 1}
 	s.wg.Add(1)
 	go s.acceptLoop(ln)
 	return s, nil
@@ -236,8 +239,34 @@ func (s *c11Server) closeConns() {
 	defer s.mu.Unlock()
 	for c := range s.conns {
 		s.log.add(c11rawEvent{k: "pclose", port: c11PortOf(c.RemoteAddr()), id: -1})
+		s.srvClosed[c] = true
 		c.Close()
 		delete(s.conns, c) // its serve goroutine may not have noticed yet when the next command comes
+	}
+}
+
+// pushConns (mode "pushcmd") sends the close notification (request id 0, result description "_reconnect_") on every
+// open connection that has not been notified yet; with closeAfter the server also closes the connection itself.
+func (s *c11Server) pushConns(closeAfter bool) {
+	s.mu.Lock()
+	defer s.mu.Unlock()
+	for c, fresh := range s.conns {
+		if !fresh {
+			continue
+		}
+		s.conns[c] = false
+		push := requestf.ResponsePacket{IVersion: s.version, IRequestId: 0, SResultDesc: "_reconnect_"}
+		pb := codec.NewBuffer()
+		if err := push.WriteTo(pb); err != nil {
+			continue
+		}
+		s.log.add(c11rawEvent{k: "pclose", port: c11PortOf(c.RemoteAddr()), id: -1})
+		c.Write(c11Frame(pb))
+		if closeAfter {
+			s.srvClosed[c] = true
+			c.Close()
+			delete(s.conns, c)
+		}
 	}
 }
 
@@ -291,6 +320,15 @@ func (s *c11Server) serve(c net.Conn) {
 		if err != nil {
 			if ne, ok := err.(net.Error); ok && ne.Timeout() && s.mode == "idle" {
 				s.log.add(c11rawEvent{k: "pclose", port: port, id: -1})
+				return
+			}
+			// the read failed although this goroutine has not closed the connection: unless the server closed it
+			// from outside (command, stop), the CLIENT has closed it
+			s.mu.Lock()
+			byServer := s.srvClosed[c] || s.stopped
+			s.mu.Unlock()
+			if !byServer {
+				s.log.add(c11rawEvent{k: "cclose", port: port, id: -1})
 			}
 			return
 		}
@@ -308,6 +346,9 @@ func (s *c11Server) serve(c net.Conn) {
 				return
 			}
 			buf = buf[l:]
+			s.mu.Lock()
+			s.version = req.IVersion
+			s.mu.Unlock()
 			callNo := -1
 			if b := tools.Int8ToByte(req.SBuffer); len(b) >= 8 {
 				callNo = int(binary.BigEndian.Uint64(b))
@@ -390,12 +431,14 @@ const c11SlowMs = 400     // a call issued after the observed close must return 
 
 // c11Case is one script together with what was observed when it ran (so a case is its own replay).
 type c11Case struct {
-	Mode    string `json:"mode"`               // how the server closes: close | half | rst | push | restart | idle
-	Burst   int    `json:"burst"`              // concurrent callers per round (1 = sequential)
-	Seq     int    `json:"seq"`                // sequential calls of each caller per round; the server closes after burst*seq replies
-	DelayUs int    `json:"delay_us"`           // delay between the observed close and the next round's calls
-	Rounds  int    `json:"rounds"`             // number of closes
-	PauseUs int    `json:"pause_us,omitempty"` // > 0: each round is two sets of calls on the same connection with this idle period between them
+	Mode      string `json:"mode"`                 // how the server closes: close | half | rst | push | restart | idle
+	Burst     int    `json:"burst"`                // concurrent callers per round (1 = sequential)
+	Seq       int    `json:"seq"`                  // sequential calls of each caller per round; the server closes after burst*seq replies
+	DelayUs   int    `json:"delay_us"`             // delay between the observed close and the next round's calls
+	Rounds    int    `json:"rounds"`               // number of closes
+	OffsMs    []int  `json:"offs_ms,omitempty"`    // pushcmd: the calls of a round are issued this many ms after the observed client swap
+	PushClose bool   `json:"push_close,omitempty"` // pushcmd: the server closes the notified connection itself right after the notification
+	PauseUs   int    `json:"pause_us,omitempty"`   // > 0: each round is two sets of calls on the same connection with this idle period between them
 
 	Events   []c11Event `json:"events,omitempty"`
 	Retries  int        `json:"retries,omitempty"`    // re-runs made after a timing failure
@@ -426,8 +469,8 @@ func c11RunOnce(c *c11Case) ([]c11Event, string) {
 		c.Seq = 1
 	}
 	k := c.Burst * c.Seq * c11Halves(c)
-	if c.Mode == "held" {
-		k = -1 // closes on command only
+	if c.Mode == "held" || c.Mode == "pushcmd" {
+		k = -1 // closes / notifies on command only
 	}
 	srv, err := c11StartServer(c.Mode, k, log)
 	if err != nil {
@@ -451,6 +494,9 @@ func c11RunOnce(c *c11Case) ([]c11Event, string) {
 	}
 	if c.Mode == "held" {
 		return c11RunHeld(c, srv, sp, log), ""
+	}
+	if c.Mode == "pushcmd" {
+		return c11RunPush(c, srv, sp, log), ""
 	}
 	callNo := 0
 	for round := 0; round <= c.Rounds; round++ {
@@ -616,6 +662,62 @@ func c11RunHeld(c *c11Case, srv *c11Server, sp *tars.ServantProxy, log *c11Log) 
 	return c11Canon(log)
 }
 
+// c11OneCall issues one call and logs its outcome.
+func c11OneCall(sp *tars.ServantProxy, log *c11Log, id int) {
+	log.add(c11rawEvent{k: "enq", id: id})
+	t0 := time.Now()
+	err := c11Call(sp, id)
+	ms := int(time.Since(t0) / time.Millisecond)
+	if err != nil {
+		log.add(c11rawEvent{k: "fail", id: id, ms: ms})
+	} else {
+		log.add(c11rawEvent{k: "reply", id: id, ms: ms})
+	}
+}
+
+// c11RunPush is the close-notification script: the server sends the reconnect push on the connection in use (and
+// keeps or closes that connection), the adapter swaps to a new transport client and grace-closes the old one on a
+// 500 ms ticker; calls are issued at scripted offsets after the observed swap (before, around and after that
+// tick). Before every call the closed flag and current connection of the adapter's current client are logged.
+func c11RunPush(c *c11Case, srv *c11Server, sp *tars.ServantProxy, log *c11Log) []c11Event {
+	callNo := 0
+	c11OneCall(sp, log, callNo) // a connection in use before the first notification
+	callNo++
+	for round := 0; round < c.Rounds; round++ {
+		before := tars.VerifC11Clients(sp)
+		if len(before) == 0 {
+			return c11Canon(log)
+		}
+		srv.pushConns(c.PushClose)
+		swapped := false
+		for deadline := time.Now().Add(4 * time.Second); time.Now().Before(deadline); time.Sleep(200 * time.Microsecond) {
+			if now := tars.VerifC11Clients(sp); len(now) > 0 && now[0] != before[0] {
+				swapped = true
+				log.add(c11rawEvent{k: "obs", id: -1, port: -1})
+				break
+			}
+		}
+		if !swapped {
+			return c11Canon(log)
+		}
+		t0 := time.Now()
+		for _, off := range c.OffsMs {
+			if d := time.Until(t0.Add(time.Duration(off) * time.Millisecond)); d > 0 {
+				time.Sleep(d)
+			}
+			if now := tars.VerifC11Clients(sp); len(now) > 0 {
+				if closed, conn := transport.VerifC11Conn(now[0]); conn != nil {
+					log.add(c11rawEvent{k: "cflag", id: -1, port: c11PortOf(conn.LocalAddr()), dead: closed})
+				}
+			}
+			c11OneCall(sp, log, callNo)
+			callNo++
+		}
+	}
+	time.Sleep(5 * time.Millisecond)
+	return c11Canon(log)
+}
+
 // c11Canon turns the raw log into the canonical trace: generations are numbered in accept order, a dial event
 // is placed before the first event that mentions the generation, ports and timestamps are dropped.
 func c11Canon(l *c11Log) []c11Event {
@@ -665,6 +767,7 @@ const (
 	c11SigSlow   = "client-conn/call-after-observed-close-slow-or-failed"
 	c11SigOnce   = "client-conn/request-not-exactly-once-at-server"
 	c11SigRedial = "client-conn/healthy-connection-redialled"
+	c11SigSelf   = "client-conn/healthy-connection-closed-by-client"
 )
 
 func c11Monitor(c *c11Case, evs []c11Event) map[string]string {
@@ -676,6 +779,9 @@ func c11Monitor(c *c11Case, evs []c11Event) map[string]string {
 	total := (c.Rounds + 1) * per
 	if c.Mode == "held" {
 		per, total = 0, c.Rounds*(1+c.Burst)
+	}
+	if c.Mode == "pushcmd" {
+		per, total = 0, 1+c.Rounds*len(c.OffsMs)
 	}
 	arrivals := map[int]int{}
 	closedByPeer := map[int]bool{}
@@ -692,6 +798,14 @@ func c11Monitor(c *c11Case, evs []c11Event) map[string]string {
 			}
 		case "pclose":
 			closedByPeer[e.G] = true
+		case "cclose":
+			if !closedByPeer[e.G] {
+				out[c11SigSelf] = fmt.Sprintf("the client itself closed connection %d, which the server had neither closed nor announced to close", e.G)
+			}
+		case "cflag":
+			if e.Dead && !closedByPeer[e.G] {
+				out[c11SigSelf] = fmt.Sprintf("the adapter's current client has its closed flag set on connection %d, which the server had neither closed nor announced to close", e.G)
+			}
 		case "write":
 			if e.Dead || !e.Cur {
 				out[c11SigStale] = fmt.Sprintf("request %d was about to be written to connection %d, which the client had already closed (closed=%v, current=%v)", e.ID, e.G, e.Dead, e.Cur)
@@ -777,6 +891,8 @@ func c11Run(c *c11Case) []Failure {
 			what := fmt.Sprintf("server closes by %q after %d replies, next calls %d us after the observed close", c.Mode, c.Burst*c.Seq*c11Halves(c), c.DelayUs)
 			if c.Mode == "held" {
 				what = fmt.Sprintf("send goroutine held just before its write, server closes the connection, %d further call(s) %d us after the observed close, then the goroutine is released", c.Burst, c.DelayUs)
+			} else if c.Mode == "pushcmd" {
+				what = fmt.Sprintf("server sends the close notification on the connection in use (closes it itself: %v), calls %v ms after the observed client swap", c.PushClose, c.OffsMs)
 			} else if c.PauseUs > 0 {
 				what += fmt.Sprintf(", %d us idle period inside each round", c.PauseUs)
 			}
@@ -816,6 +932,10 @@ func c11Coq(c *c11Case) string {
 			fmt.Fprintf(&sb, "ESrv %d %d", e.G, e.ID)
 		case "pclose":
 			fmt.Fprintf(&sb, "EPeerClose %d", e.G)
+		case "cclose":
+			fmt.Fprintf(&sb, "ECliClose %d", e.G)
+		case "cflag":
+			fmt.Fprintf(&sb, "ECFlag %d %s", e.G, coqBool(e.Dead))
 		case "obs":
 			if e.G < 0 {
 				sb.WriteString("EObsPush")
@@ -829,7 +949,7 @@ func c11Coq(c *c11Case) string {
 		}
 	}
 	sb.WriteString("]")
-	return "(" + coqBool(c.Mode == "push") + ", " + sb.String() + "%nat)"
+	return "(" + coqBool(c.Mode == "push" || c.Mode == "pushcmd") + ", " + sb.String() + "%nat)"
 }
 
 func c11Gen(tier string, rng *rand.Rand) []c11Case {
@@ -863,6 +983,11 @@ func c11Gen(tier string, rng *rand.Rand) []c11Case {
 	for r := 0; r < 3*reps; r++ {
 		// an idle period longer than the sender's 1 s ticker on a healthy connection, then calls, then the close
 		cs = append(cs, c11Case{Mode: []string{"close", "idle", "restart"}[r%3], Burst: 1 + r%2, Seq: 1 + rng.Intn(2), DelayUs: []int{0, 1000, 50000}[rng.Intn(3)], Rounds: 1, PauseUs: 1050000 + rng.Intn(400000)})
+	}
+	for r := 0; r < 2*reps; r++ {
+		// close notification, calls before / around / after the 500 ms grace tick of the swapped-out client
+		offs := []int{rng.Intn(20), 80 + rng.Intn(40), 380 + rng.Intn(50), 570 + rng.Intn(60), 1150 + rng.Intn(100)}
+		cs = append(cs, c11Case{Mode: "pushcmd", Burst: 1, Seq: 1, Rounds: 2, OffsMs: offs, PushClose: r%2 == 1})
 	}
 	for r := 0; r < 4*reps; r++ {
 		d := []int{0, 1000, 50000}[r%3]
@@ -921,6 +1046,9 @@ func init() {
 				pz := ""
 				if c.PauseUs > 0 {
 					pz = "/pause"
+				}
+				if c.PushClose {
+					pz += "/srvclose"
 				}
 				return fmt.Sprintf("%s/b%d/s%d/%s%s", c.Mode, c.Burst, c.Seq, c11DelayClass(c.DelayUs), pz)
 			},
